@@ -3,7 +3,7 @@
    proofs/LifeInvariance.v.  The model (model/Life.v) is tied to
    srlife/damage.py and srlife/materials.py by harness/props/c01.py. *)
 From Coq Require Import QArith List Bool ZArith.
-From SV Require Import model.Life proofs.LifeProofs proofs.LifeMin proofs.LifeInvariance.
+From SV Require Import model.Life proofs.LifeProofs proofs.LifeMin proofs.LifeInvariance proofs.LifeLast.
 Import ListNotations.
 Open Scope Q_scope.
 
@@ -82,3 +82,19 @@ Theorem C01_last_boundary_partial :
   let r := bisect P 1 1000000 40 in (1 < r <= 1000000)%Z /\ P (r - 1)%Z = true /\ P r = false.
 Proof. exact last_boundary. Qed.
 Print Assumptions C01_last_boundary_partial.
+
+(* the last-cycle rule in full, for non-negative per-day damages: the reported life is the first
+   repetition count outside the envelope *)
+Theorem C01_last_cycle_life :
+  forall xk yk : Q, (0 < xk < 1)%Q -> (0 < yk < 1)%Q ->
+  forall Dc Df : list Q, nonneg Dc -> nonneg Df ->
+  member xk yk Dc Df 1 = true -> member xk yk Dc Df 1000000 = false ->
+  exists r : Z, point_life_last xk yk Dc Df = Cross (inject_Z r) /\ (1 < r <= 1000000)%Z /\
+    (forall n, (0 <= n < r)%Z -> member xk yk Dc Df n = true) /\ (forall n, (r <= n)%Z -> member xk yk Dc Df n = false).
+Proof. exact last_cycle_life. Qed.
+Print Assumptions C01_last_cycle_life.
+
+Theorem C01_last_cycle_damage_monotone :
+  forall D a b, nonneg D -> (0 <= a <= b)%Z -> (extrap_last D a <= extrap_last D b)%Q.
+Proof. exact extrap_last_mono. Qed.
+Print Assumptions C01_last_cycle_damage_monotone.
